@@ -161,8 +161,47 @@ def st_sensitivity(args):
     return 0 if all(v.startswith("CAUGHT") for v in results.values()) else 1
 
 
+def st_equivalence(args):
+    """over-strictness test: behaviour-preserving refactorings of the repository
+    (mutants/equivalent/*.patch) must leave every named check quiet (exit 0)."""
+    import re
+    results = {}
+    repo = os.environ.get("VERIF_REPO", "/repo")
+    for patch in sorted(glob.glob(os.path.join(VERIF, "mutants", "equivalent", "*.patch"))):
+        name = os.path.basename(patch)[:-6]
+        if args and name not in args:
+            continue
+        props = ["C" + x for x in re.findall(r"c(\d\d)", name.split("_")[1])]
+        scratch = tempfile.mkdtemp(prefix="verif-eq-")
+        dst = os.path.join(scratch, "repo")
+        try:
+            subprocess.check_call(["git", "-C", repo, "worktree", "add", "--detach", "-f", dst, "HEAD"],
+                                  stdout=subprocess.DEVNULL, stderr=subprocess.DEVNULL)
+            if subprocess.call(["git", "-C", dst, "apply", patch]) != 0:
+                results[name] = "PATCH-FAILED"
+                continue
+            env = dict(os.environ, VERIF_REPO=dst, VERIF_EVIDENCE_DIR=scratch)
+            for prop in props:
+                t0 = time.time()
+                p = subprocess.run([PY, os.path.join(HERE, "cli.py"), "check", prop, "--tier", "quick"],
+                                   env=env, cwd=VERIF, capture_output=True, text=True)
+                key = "%s/%s" % (name, prop)
+                results[key] = "QUIET" if p.returncode == 0 else ("ALARM rc=%d %s" % (
+                    p.returncode, " ".join(l.strip() for l in p.stdout.splitlines() if "oracle=" in l or "HARNESS" in l)[:300]))
+                print("%-55s %s (%.0fs)" % (key, results[key], time.time() - t0), flush=True)
+        finally:
+            subprocess.call(["git", "-C", repo, "worktree", "remove", "--force", dst],
+                            stdout=subprocess.DEVNULL, stderr=subprocess.DEVNULL)
+            shutil.rmtree(scratch, ignore_errors=True)
+    with open(os.path.join(VERIF, "mutants", "equivalent", "matrix.json"), "w") as f:
+        json.dump(results, f, indent=1, sort_keys=True)
+    return 0 if all(v == "QUIET" for v in results.values()) else 1
+
+
 if __name__ == "__main__":
     what = sys.argv[1]
+    if what == "equivalence":
+        sys.exit(st_equivalence(sys.argv[2:]))
     if what == "seams":
         sys.exit(st_seams())
     if what == "determinism":
